@@ -49,13 +49,18 @@ def run_scenarios(run, scenarios, limit_per_scenario, family, prefix='c07'):
         run.note('thread_programs', {n: [f"{e['op']}:{e['lock']}" for e in p] for n, p in programs.items()})
         for si, sc in enumerate(scenarios):
             progs = {i + 1: programs[n] for i, n in enumerate(sc)}
-            readers = [i + 1 for i, n in enumerate(sc) if n.startswith(('R_', 'O_'))]   # threads whose code after a release matters
+            readers = [i + 1 for i, n in enumerate(sc) if n.startswith(('R_', 'O_', 'P_'))]   # threads whose code after a release matters
             total_events = sum(len(p) for p in progs.values())
             exhaustive = total_events <= 34 and len(sc) <= 2
             scheds = enumerate_schedules(run, f'{prefix}_{si}', progs, readers,
                                          limit=None if exhaustive else limit_per_scenario, seed=run.seed + si)
             if not exhaustive:
                 scheds = scheds[:limit_per_scenario]
+            elif len(scheds) > 4 * limit_per_scenario:
+                # all interleavings are known; executing each on real threads is what costs: an evenly spread subset
+                step = -(-len(scheds) // (4 * limit_per_scenario))
+                run.count('schedules_enumerated_but_not_executed', len(scheds) - len(scheds[::step]))
+                scheds = scheds[::step]
             run.count('schedules', len(scheds))
             run.count('schedules_predicted_unsafe_by_model', sum(1 for s in scheds if not s['snapshot']))
             recs = []
